@@ -22,6 +22,54 @@ PROPS['C07'] = dict(
 )
 
 
+PROPS['C08'] = dict(
+    units=['k_int'], level='proof', design_ref='6/C08',
+    technique='CBMC contracts on itoa<int>, itoa<unsigned>, fast_atoi<int|unsigned|unsigned short> extracted from the clang AST: '
+              'canonical-text and value postconditions against a strtol-style spec function, plus the modular round-trip lemma over the two contracts',
+    text='Integer conjunct: proof for all 2^32 values of int and of unsigned. itoa writes at most 12 bytes, returns the length, and the text is the '
+         'canonical decimal (optional single minus only for negatives, no leading zero) whose spec value is the argument; fast_atoi returns the spec '
+         'value of every canonical text in range; the two contracts compose to fast_atoi(itoa(x)) == x. Loops are closed by unwinding to the '
+         '11-character width of a 32-bit decimal with unwinding assertions, which is complete for the domain. Floating-point conjunct '
+         '(modp_dtoa / fast_atof correct rounding and half-ulp parse-back): NOT decided by this check.',
+    note='floating-point half of C08 is not decided (IEEE rounding over a decimal digit chain is out of reach of CBMC\'s float bit-blasting); '
+         'spec_val/spec_canon are a trusted 12-line oracle; itoa only at base 10; thorough tier adds the direct (non-modular) round trip on the real bodies',
+    trusted_base=COMMON_TRUST,
+    explanation='Each function is enforced against its contract in its own harness (is_fresh 12-byte buffer, so any 13th byte written is a bounds violation); '
+                'rt_int_modular replaces both calls by their contracts and proves the round trip from the contracts alone.',
+)
+
+PROPS['C09'] = dict(
+    units=['k_date'], level='proof', design_ref='6/C09',
+    technique='CBMC harness contracts on time_to_epoch, format0/parse_decimal, date_time_format, date_time_parse, time_parse, date_parse extracted from the '
+              'clang AST, against Hinnant civil-calendar spec functions; Tickval (std::chrono + gmtime_r) is an assumed model',
+    text='Proof for every valid broken-down time 1970..2099 (all days, seconds of day, milliseconds): time_to_epoch equals the proleptic-Gregorian '
+         'day count * 86400 + seconds of day; the rendered text for each of the six indicators is exactly the fixed-width wire text of the calendar fields, '
+         'written inside a 21-byte buffer; parsing the wire text of any valid field tuple hands exactly those fields to time_to_epoch and returns its value '
+         'scaled to ns plus the milliseconds; time-only and date-only/MonthYear texts likewise. The thorough tier adds the pure calendar inverse lemma and the '
+         'direct round trip. The GetTimeAsStringMS conjunct (iostream rendering of log timestamps) is NOT decided by this check.',
+    note='Tickval::get_tm (chrono to_time_t + gmtime_r) and Tickval::msecs are ASSUMED to return the spec calendar fields (model bodies in specs/k_date.py); '
+         'utcdiff = 0; loops bounded by field width <= 4 are unwound with unwinding assertions (complete); GetTimeAsStringMS not covered',
+    trusted_base=COMMON_TRUST,
+    explanation='Field tuples are symbolic over the whole valid domain; wire text is characterised by layout + digit-group recomposition (no division), '
+                'so format and parse are each proved against the same text predicate and compose to the round trip through the calendar inverse lemma.',
+)
+
+
+PROPS['C10'] = dict(
+    units=['k_realm'], level='proof', design_ref='6/C10',
+    technique='CBMC harness contracts on RealmBase::get_rlm_idx<int|char> and is_valid<int|char> extracted from the clang AST, over a realm table of symbolic '
+              'length; std::lower_bound / std::binary_search are assumed ISO contracts with a ghost partition index; membership by a single ghost witness',
+    text='Proof for every strictly sorted table of 1..2^24 ints or chars, every probe value and every witness position: a set-realm index is -1 or a valid '
+         'index whose element equals the value (idx_exact), a member always gets its own index (idx_member), the index is a valid subscript of '
+         '_descriptions[_sz] (idx_in_bounds); a range-realm index is reported only for values inside [lo, hi]; is_valid equals set membership / range inclusion.',
+    note='std::lower_bound / std::binary_search contracts are ASSUMED (model bodies); "tables are strictly sorted" and "_descriptions has _sz entries" are '
+         'facts about f8c output, not proved; only the int and char instantiations are verified (f8String / fp_type share the text, not the proof); '
+         'the printer MessageBase::print (iostream) is not under contract: it subscripts _descriptions with exactly the index proved in bounds here',
+    trusted_base=COMMON_TRUST,
+    explanation='The real template bodies are extracted per instantiation; the table lives behind a malloc of symbolic size, so any read outside [0,_sz) is a bounds '
+                'violation; sortedness is instantiated at (witness, partition point), which is the only instance the proof uses.',
+)
+
 # ---------------------------------------------------------------- native replayers
 import os
 from vlib import replay as _rp
@@ -44,6 +92,64 @@ def _replay_k_chk(oid, inputs, trace, wd):
 
 
 replayers['k_chk'] = _replay_k_chk
+
+
+def _replay_k_int(oid, inputs, trace, wd):
+    exe = _rp.build_native(os.path.join(_rp.VERIF, 'replay', 'k_int.cpp'), os.path.join(wd, 'replay_k_int'))
+    out = dict(steps=[])
+    for key, mode in (('value', 'uone' if 'uint' in oid else 'one'), ('x', 'uone' if 'uint' in oid else 'one')):
+        v = _rp.num(inputs.get(key, ''))
+        if v is not None:
+            rc, o = _rp.run_native(exe, [mode, v])
+            out['steps'].append(dict(kind='trace-inputs', args=[mode, v], rc=rc, output=o[-1500:]))
+            if rc != 0:
+                out['reproduced'] = True
+                return out
+    rc, o = _rp.run_native(exe, ['search'])
+    out['steps'].append(dict(kind='native contract-checking search (boundaries + stride 9973 over int and unsigned)', rc=rc, output=o[-1500:]))
+    out['reproduced'] = rc != 0
+    return out
+
+
+def _replay_k_date(oid, inputs, trace, wd):
+    exe = _rp.build_native(os.path.join(_rp.VERIF, 'replay', 'k_date.cpp'), os.path.join(wd, 'replay_k_date'))
+    out = dict(steps=[])
+    v = _rp.num(inputs.get('ms', ''))
+    if v is None:
+        # harnesses over calendar fields: rebuild the instant from the trace's field tuple
+        f = {k: _rp.num(inputs.get('f.' + k, '') or inputs.get('f0.' + k, '')) for k in ('y', 'mo', 'd', 'h', 'mi', 's', 'ms')}
+        if None not in (f['y'], f['mo'], f['d']):
+            import calendar
+            try:
+                v = calendar.timegm((f['y'], f['mo'], f['d'], f['h'] or 0, f['mi'] or 0, f['s'] or 0)) * 1000 + (f['ms'] or 0)
+            except Exception:
+                v = None
+    if v is not None and 0 <= v < 4102444800000:
+        rc, o = _rp.run_native(exe, ['one', v])
+        out['steps'].append(dict(kind='trace-inputs', args=['one', v], rc=rc, output=o[-1500:]))
+        if rc != 0:
+            out['reproduced'] = True
+            return out
+    rc, o = _rp.run_native(exe, ['search'])
+    out['steps'].append(dict(kind='native contract-checking search (first/last/mid ms of every day 1970..2099 + prime stride)', rc=rc, output=o[-1500:]))
+    out['reproduced'] = rc != 0
+    return out
+
+
+
+
+def _replay_k_realm(oid, inputs, trace, wd):
+    exe = _rp.build_native(os.path.join(_rp.VERIF, 'replay', 'k_realm.cpp'), os.path.join(wd, 'replay_k_realm'))
+    which = ('range_member' if '.range.' in oid and 'idx_member' in oid else 'range_valid' if 'range_inclusion' in oid
+             else 'range_first' if '.range.' in oid else 'set')
+    rc, o = _rp.run_native(exe, ['search', which])
+    return dict(steps=[dict(kind='native contract-checking search: every strictly sorted table over an 8-letter alphabet x every probe value (%s realms, int and char)' % which,
+                            rc=rc, output=o[-1500:])], reproduced=rc != 0)
+
+
+replayers['k_realm'] = _replay_k_realm
+replayers['k_int'] = _replay_k_int
+replayers['k_date'] = _replay_k_date
 
 
 # ---------------------------------------------------------------- not applicable / not (yet) claimed
